@@ -1,7 +1,7 @@
 (* C04 commands (codes 4000 + sub): decoding / encoding in Gallina. *)
 From Coq Require Import List ZArith NArith Bool Arith.
 From BS Require Import Base.Sexp Base.Types Model.Attrs Model.Heap Model.Edit Model.Build Model.Adapter
-                       Spec.Tree Spec.BuildSpec Spec.DocSpec.
+                       Spec.Tree Spec.BuildSpec Spec.DocSpec Model.Tokenizer Model.TokParse Spec.DocWrite.
 Import ListNotations.
 Open Scope Z_scope.
 
@@ -133,6 +133,21 @@ Definition s_snode (n : snode) : sexp :=
   L [s_onat4 (sn_parent n); sstr (p_name p); sN (p_cls p); sbool (p_void p); slist (spair sstr sstr) (p_attrs p)].
 Definition s_tagpos (np : str * option pos) : sexp := L [sstr (fst np); sopt s_pos (snd np)].
 
+(* a callback of the tokenizer model *)
+Definition s_tev (e : tev) : sexp :=
+  match e with
+  | TStart n a => L [A 0; sstr n; s_hattrs a]
+  | TStartEnd n a => L [A 1; sstr n; s_hattrs a]
+  | TEnd n => L [A 2; sstr n]
+  | TData d => L [A 3; sstr d]
+  | TCharref n => L [A 4; sstr n]
+  | TEntityref n => L [A 5; sstr n]
+  | TComment d => L [A 6; sstr d]
+  | TDecl d => L [A 7; sstr d]
+  | TUnknownDecl d => L [A 8; sstr d]
+  | TPi d => L [A 9; sstr d]
+  end.
+
 Definition g_mva (s : sexp) : option cdata_table := gopt (glist (gpair gstr (glist gstr))) s.
 
 Definition disp_c04 (sub : Z) (args : list sexp) : sexp :=
@@ -168,5 +183,17 @@ Definition disp_c04 (sub : Z) (args : list sexp) : sexp :=
   | 5, c :: hs :: _ =>
       let '(o, ac, ok) := adapter_run_gen true (g_acfg c) [] (glist g_hev hs) in
       L [slist s_out o; slist sstr ac; sbool ok]
+  (* (4006 cfg doc) -> the written text of a document of the sub-grammar Spec.DocWrite.simple_doc and the evaluated
+     statement of Props.C04 C04_string_tree_partial on it: simple_doc, wf_doc, write doc, the ideal callbacks without
+     positions, not rejected, spec_run (adapter (tokenizer (write doc))) = flat (expect doc) *)
+  | 6, c :: d :: _ =>
+      let cfg := g_acfg c in
+      let doc := glist g_dnode d in
+      let text := write doc in
+      let cbs := callbacks (fun v => v) text in
+      let '(o, _, ok) := adapter_run cfg [] cbs in
+      L [sbool (simple_doc doc); sbool (wf_doc cfg doc); sstr text; slist s_tev (tevs_of doc);
+         sbool (negb (rejected (fun v => v) text));
+         sbool (ok && snodes_eqb (spec_run (a_b cfg) (events_of o)) (flat (a_b cfg) (expect cfg doc)))]
   | _, _ => A (-1)
   end.
